@@ -1073,7 +1073,7 @@ func c29Head(b []byte, n int) string {
 const c29RuleExtremes = "[extremes] PRNG field assignments whose SIZE and ESCAPING are extreme in the fields a client controls: one or two (1 case in 20: all) of key, bucket, content_type, one original_headers value (tracestate/content-type/...), many original_headers entries, an original_headers key, proxy_id, checksum_alg, created_at, checksum, sha256 are set to exactly L bytes, L log-uniform over 16 B..64 KiB, a quarter of the draws on 2^k-1/2^k/2^k+1 for k=6..16 (so exact 1024-byte keys), one in twenty-four between 64 KiB and 256 KiB (thorough: 512 KiB), filled from one of 11 text classes (plain ASCII; & < > which encoding/json writes as 6-byte escapes; quotes and backslashes; control characters; U+2028/U+2029; 2-byte, CJK and 4-byte UTF-8; W3C tracestate lists; MIME parameter lists; a mix of everything), either one unit repeated or a PRNG mix; the other fields are what the proxy usually writes or a [generated] draw. Encoded envelopes range from ~300 bytes to several hundred KiB. Same oracle as [generated]: Go Decode(Encode(e)) = e, IsLfsEnvelope true, re-encode identity, python/node recognise the bytes and decode the same fields; non-trivial = encoded envelope longer than 1 KiB"
 
 func c29PhaseExtremes(r *verifkit.Run) []c29Item {
-	n := r.N(240, 1500)
+	n := r.N(240, 1000)
 	bigExp := r.N(18, 19)
 	var items []c29Item
 	for ci := 0; ci < n; ci++ {
@@ -1291,7 +1291,7 @@ func c29PhaseProxy(t *testing.T, r *verifkit.Run, longOnly bool) []c29Item {
 	topicsAtoms := []string{"orders", "t", "日本語", "topic-with-a-very-long-name-that-goes-beyond-fifty-bytes-easily-0123456789", "a/b", "q\"uote", "sp ace", "é", "😀", "x.y_z-1"}
 	hdrKeys := []string{"content-type", "Content-Type", "content-encoding", "correlation-id", "message-id", "x-correlation-id", "X-Request-ID", "traceparent", "tracestate", "authorization", "x-secret", "custom"}
 	n := r.N(150, 4000)
-	nl := r.N(60, 600) // further cases whose client-controlled inputs (record headers, topic) are long / escape-heavy: leg "extremes"
+	nl := r.N(60, 300) // further cases whose client-controlled inputs (record headers, topic) are long / escape-heavy: leg "extremes"
 	first, last := 0, n
 	if longOnly {
 		first, last = n, n+nl
@@ -1413,7 +1413,7 @@ func c29PhaseProxy(t *testing.T, r *verifkit.Run, longOnly bool) []c29Item {
 	be := c29StartBackend(t)
 	defer be.ln.Close()
 	nh := r.N(40, 600)
-	nhl := r.N(40, 300) // further cases with a long / escape-heavy Content-Type and a 249-byte topic: leg "extremes"
+	nhl := r.N(40, 150) // further cases with a long / escape-heavy Content-Type and a 249-byte topic: leg "extremes"
 	first, last = 0, nh
 	if longOnly {
 		first, last = nh, nh+nhl
@@ -1740,7 +1740,7 @@ func c29PhaseAgreement(r *verifkit.Run) []c29Item {
 // how much follows the 50-byte prefix).
 func c29PhaseBigAgreement(r *verifkit.Run) []c29Item {
 	var items []c29Item
-	nb := r.N(100, 1500)
+	nb := r.N(100, 800)
 	for ci := 0; ci < nb; ci++ {
 		rng := r.Rand(2500000 + ci)
 		e, _ := c29GenExtreme(rng, 17)
